@@ -19,6 +19,14 @@
 (*              writes (write, commit and the reads after it in one go) and  *)
 (*              every placement of every close: a worker that has written    *)
 (*              stays open - idle - while the others write, or closes first; *)
+(*   "restore": a restore while other live processes have the database open  *)
+(*              (scenarios ScnRestoreLive): workers start in index order; a  *)
+(*              worker may start while the earlier ones are PAUSED in the    *)
+(*              middle of their page work (before the bootstrap write, or    *)
+(*              after its commit) or have finished; while a later worker is  *)
+(*              mid-run the earlier ones do not move; the creating context   *)
+(*              writes its backup (bkd) and closes at any moment, every      *)
+(*              worker closes at any moment after its page work;             *)
 (*   "all":     no restriction (used with -simulate).                        *)
 (* In "startup" and "work" the contexts are closed at the end, in order.     *)
 EXTENDS MC_Workers, Json
@@ -30,7 +38,7 @@ VARIABLES sched,
 VARIABLE idlew    \* history: per bootstrap write (in the order performed) the number of workers that were idle then -
                   \* page work over, context still open: the meetings in which a transaction left open by an idle
                   \* context would keep the writer out for as long as that context lives; a class label for sampling
-gvars == <<scn, pmain, pbak, ino, wlock, pc, conn, snap, saw, res, chk, raced, snapfail, opn, life, txn, sched, meet, idlew>>
+gvars == <<scn, pmain, pbak, ino, wlock, pc, conn, snap, saw, res, chk, raced, snapfail, opn, life, txn, sf, sched, meet, idlew>>
 
 StartupLabels == {"exists", "unlink", "rename", "connect", "script"}
 InStartup(p) == pc[p] \in StartupLabels
@@ -55,6 +63,12 @@ AllowedBoot3(p) ==
                             /\ \A q \in Procs : (q < p) => ~PreInsert(q)
   ELSE /\ \A q \in Procs : ~InStartup(q) /\ ~PreInsert(q)
        /\ \A q \in Procs \ {p} : ~InBlock(q)
+PausePt(q) == pc[q] \in {"read1", "read2"}
+AllowedRestore(p) ==
+  IF p = D \/ Finished(p) THEN \A q \in Procs : ~InStartup(q) \/ pc[q] = "exists"
+  ELSE IF pc[p] = "exists" THEN /\ \A q \in Procs : (q < p) => pc[q] # "exists"
+                                /\ \A q \in Procs \ {p} : MidRun(q) => PausePt(q)
+  ELSE \A q \in Procs \ {p} : MidRun(q) => (PausePt(q) /\ q < p)
 Allowed(p) ==
   CASE Focus = "startup" -> AllowedStartup(p)
     [] Focus = "work" -> AllowedWork(p)
@@ -65,6 +79,7 @@ Allowed(p) ==
     \* provenance families: scenarios with a cursor as in "work", those without as in "startup"
     [] Focus = "prov" -> IF scn.cursor THEN AllowedWork(p) ELSE AllowedStartup(p)
     [] Focus = "boot3" -> AllowedBoot3(p)
+    [] Focus = "restore" -> AllowedRestore(p)
     [] OTHER -> TRUE
 
 \* workers that have been through their bootstrap write (or skipped it) and are idle now
@@ -84,7 +99,7 @@ Emit ==
                              res |-> [i \in 1..Cardinality(Procs) |-> res[i]],
                              store |-> (pmain # 0 /\ ino[pmain].c \ {"boot"} = {Exp}),
                              raced |-> raced, snapfail |-> snapfail, life |-> life,
-                             meet |-> meet, idlew |-> idlew,
+                             meet |-> meet, idlew |-> idlew, stale |-> sf.stale, live |-> sf.live, after |-> sf.after,
                              jm |-> IF pmain # 0 THEN ino[pmain].jm ELSE "none"])>>)
 GenInv == Emit
 =============================================================================
